@@ -18,5 +18,6 @@ func Run(cfg hx.Config) error {
 	rnd := hx.NewRand(cfg.Seed)
 	r.Rule = "pure layer: generated per-layer artifacts (0-12 layers; install/upgrade/remove evolutions, shared ids across databases, duplicate digests, repositories, whiteout files) through the real coalescers, MergeSR, whiteout.Resolver, IndexRecords; non-trivial = more than one layer / more than one ecosystem / fileIsDeleted true"
 	runPure(r, cfg, rnd.Fork())
+	runE2E(r, cfg, rnd.Fork())
 	return r.Close()
 }
